@@ -83,6 +83,17 @@ def check_generate_mesh(d, out):
         return
     full, tw_full, _ = _gen(_mesh_dict(d, False))
     half, tw_half, w_half = _gen(_mesh_dict(d, True))
+    # the dictionary (incl. a user's offset array) is left as it was, and a second call gives the same mesh
+    from oasv.setups import mesh_hashes
+
+    md_user = _mesh_dict(d, True, offset=d.get("offset"))
+    h0 = mesh_hashes([md_user])
+    m1, _, _ = _gen(md_user)
+    m2, _, _ = _gen(md_user)
+    h1 = mesh_hashes([md_user])
+    out.true("repeatable", m1.shape == m2.shape and np.array_equal(m1, m2), "second generate_mesh call on the same dictionary differs")
+    changed = sorted(k for k in set(h0) | set(h1) if h0.get(k) != h1.get(k))
+    out.true("dictionary_untouched", not changed, "generate_mesh changed the user's dictionary: %s" % changed)
     ny2 = (ny + 1) // 2
     span = float(np.ptp(full[:, :, 1])) if crm else float(d["span"])
     ext = max(span, float(np.ptp(full[:, :, 0])))
@@ -225,7 +236,19 @@ def check_multisection(d, out, key_for=None):
     nx = int(d["nx"])
     sym = bool(d["symmetry"])
     root = n - 1 if (sym or n == 1) else int(d["root_section"])
-    mesh, secs = mg.generate_mesh(multisec_surface(d))
+    from oasv.setups import mesh_hashes
+
+    surf = multisec_surface(d)
+    h0 = mesh_hashes([surf])
+    mesh, secs = mg.generate_mesh(surf)
+    # generating again from the SAME dictionary gives the same meshes, and the dictionary is the user's: left as it was
+    mesh_b, secs_b = mg.generate_mesh(surf)
+    out.true(K(None, "ms/repeatable"), mesh_b.shape == mesh.shape and np.array_equal(mesh_b, mesh) and len(secs_b) == len(secs)
+             and all(a.shape == b.shape and np.array_equal(a, b) for a, b in zip(secs, secs_b)),
+             "second generation from the same dictionary differs (unified shape %s then %s)" % (mesh.shape, mesh_b.shape))
+    h1 = mesh_hashes([surf])
+    changed = sorted(k for k in set(h0) | set(h1) if h0.get(k) != h1.get(k))
+    out.true(K(None, "ms/dictionary_untouched"), not changed, "generate_mesh changed the user's dictionary: %s" % changed)
     sc = float(sum(d["span"]) + d["root_chord"])
     nytot = sum(int(x) for x in d["ny"]) - (n - 1)
     if not out.true(K(None, "ms/shape"), len(secs) == n and all(s is not None and s.shape == (nx, int(d["ny"][i]), 3)
